@@ -65,7 +65,14 @@ impl<'a> Cigar<'a> {
             if src.is_empty() {
                 None
             } else {
-                Some(parse_op(&mut src))
+                let result = parse_op(&mut src);
+
+                // Nothing can be parsed after a malformed operation: end the iteration.
+                if result.is_err() {
+                    src = &[];
+                }
+
+                Some(result)
             }
         })
     }
